@@ -1,0 +1,41 @@
+//go:build verif
+
+package cache
+
+import "sync/atomic"
+
+// Verification gate points of SetWithCap (build tag "verif" only). A
+// conformance harness installs a gate function to observe each critical step
+// of SetWithCap from the goroutine that performs it, and may block there to
+// force a chosen interleaving. With no gate installed the call is a no-op.
+const (
+	verifLocked = iota + 1
+	verifPutAdded
+	verifOverCap
+	verifUnlocking
+	verifUnlocked
+	verifSpillLock
+	verifSpillEvicted
+	verifSpillSubbed
+)
+
+// VerifGateFunc receives (point, segment index, key, n) where n is the
+// point's scalar: the remaining deficit or the number of entries evicted.
+type VerifGateFunc func(point int, seg uint, key uint64, n int)
+
+var verifGateFn atomic.Pointer[VerifGateFunc]
+
+// SetVerifGate installs (or, with nil, removes) the gate function.
+func SetVerifGate(f VerifGateFunc) {
+	if f == nil {
+		verifGateFn.Store(nil)
+		return
+	}
+	verifGateFn.Store(&f)
+}
+
+func verifGate(point int, seg uint, key uint64, n int) {
+	if f := verifGateFn.Load(); f != nil {
+		(*f)(point, seg, key, n)
+	}
+}
